@@ -16,12 +16,18 @@ inductive Part
   | step (frm to step ms : Int)
 deriving Repr, DecidableEq
 
-/-- token offsets (ns) of a composite of parts started at offset `s`; `none` when a part is not computed by the model
-(`const` with ops > 0: its float arithmetic belongs to C01) -/
+/-- token offsets (ns) of a composite of parts started at offset `s`; `none` when a part is not computed by the model:
+`const` with ops > 0 is computed only where every float64 operation of `NewConst` is exact (ops divides 10⁹ and the
+duration is whole seconds: n = ops·seconds tokens, token i at i·(10⁹/ops)); the float arithmetic in general belongs to C01 -/
 def partsToks : List Part → Int → Option (List Int)
   | [], _ => some []
   | .once n :: ps, s => (partsToks ps s).map (List.replicate n.toNat s ++ ·)
-  | .const ops ms :: ps, s => if ops == 0 then partsToks ps (s + ms * 1000000) else none
+  | .const ops ms :: ps, s =>
+      if ops ≤ 0 then partsToks ps (s + ms * 1000000)
+      else if 1000000000 % ops == 0 && ms % 1000 == 0 then
+        (partsToks ps (s + ms * 1000000)).map
+          (((List.range (ops * (ms / 1000)).toNat).map fun (i : Nat) => s + (i : Int) * (1000000000 / ops)) ++ ·)
+      else none
   | .step f t st ms :: ps, s =>
       (partsToks ps (s + instanceStepDur f t st (ms * 1000000))).map
         ((instanceStepToks f t st (ms * 1000000)).map (· + s) ++ ·)
@@ -32,12 +38,24 @@ structure Obs where
   mstart : Nat
   fails : Nat
   total : Nat
+  /-- the `started` result of `startInstances` as logged by the pool (none: not seen) -/
+  started : Option Nat := none
+  starterr : String := "?"
+  /-- bound guns never closed -/
+  running : Nat := 0
+  /-- instants at which the startup tokens were handed out -/
+  picks : List Int := []
+  /-- instants of the gun creations after the warm-up gun -/
+  guns : List Int := []
+  /-- largest oversleep of the harness heartbeat, ns -/
+  jitter : Int := 0
   /-- tokens handed out by the real startup schedule, ns since Run was called -/
   toks : List Int
   /-- token offsets of a drained copy of the startup schedule -/
   ctoks : List Int
   binds : List (Nat × Int)
-  exits : List Int
+  /-- (instance id, instant of gun Close, reason: sched | ammo | ctx | err | ?) by instant -/
+  exits : List (Nat × Int × String)
   /-- first instants at which ammo ran out / an RPS schedule finished / cancel was called / gun creation failed -/
   cuts : List (String × Int)
 deriving Repr
@@ -91,6 +109,21 @@ def kBounds (perinst : Bool) (o : Obs) : Nat × Nat :=
       (if kind == "ammo" || kind == "rps" then max lo (min 1 (hi - o.fails)) else lo, hi - o.fails)
   | none => (lo - o.fails, hi - o.fails)
 
+/-- first instant of a cause of the given kind -/
+def cutAt (o : Obs) (kind : String) : Option Int := (o.cuts.find? (·.1 == kind)).map (·.2)
+
+/-- has the cause an exit claims occurred by the time of the exit?  `sched`: an RPS schedule has reported its end;
+`ammo`: the provider has refused ammo; `ctx`: the run was cancelled or the pool failed (a gun could not be created);
+`err` (a gun panicked) does not occur with the harness gun; `?`: reason not logged, nothing to check -/
+def exitExplained (o : Obs) (x : Nat × Int × String) : Bool :=
+  let by_ (kind : String) : Bool := match cutAt o kind with | some t => t ≤ x.2.1 | none => false
+  match x.2.2 with
+  | "sched" => by_ "rps"
+  | "ammo" => by_ "ammo"
+  | "ctx" => by_ "cancel" || by_ "fail"
+  | "?" => true
+  | _ => false
+
 def distinct : List Nat → Bool
   | [] => true
   | x :: xs => !xs.contains x && distinct xs
@@ -119,12 +152,16 @@ where
     if o.k != ids.length then "fail:driver:k" else
     if (startCuts perinst o).isEmpty && o.err == "nil" && o.k != o.total then s!"fail:count:{o.k} instances for {o.total} tokens and nothing cut the start short" else
     if o.k + o.fails < lower perinst o then s!"fail:missing:{o.k} instances, {lower perinst o} tokens were released {margin / 1000000} ms or more before the first cause {o.cuts}" else
-    match minOf o.cuts, o.exits.find? (fun _ => true) with
-    | none, some x => s!"fail:reduced:an instance finished at {x} ns although ammo, RPS profile and run were all still alive"
+    match minOf o.cuts, o.exits.head? with
+    | none, some x => s!"fail:reduced:instance {x.1} finished at {x.2.1} ns although ammo, RPS profile and run were all still alive"
     | some c, _ =>
-      match o.exits.find? (· < c.2) with
-      | some x => s!"fail:reduced:an instance finished at {x} ns, before the first possible cause ({c.1} at {c.2} ns)"
-      | none => "ok"
+      match o.exits.find? (·.2.1 < c.2) with
+      | some x => s!"fail:reduced:instance {x.1} finished at {x.2.1} ns, before the first possible cause ({c.1} at {c.2} ns)"
+      | none =>
+        -- every exit needs ITS cause: the profile / the ammo exhausted, or the RUN cancelled (by the caller or by the failing pool)
+        match o.exits.find? (fun x => !(exitExplained o x)) with
+        | some x => s!"fail:reduced:instance {x.1} finished at {x.2.1} ns for reason {x.2.2} without that cause having occurred ({o.cuts})"
+        | none => "ok"
     | none, none => "ok"
 
 end Pandora.Spec.C12
